@@ -201,7 +201,7 @@ def run_shard(ctx):
         src, nt, feats, n = check(doc)
         ctx.stats.case(key=(src, doc[1]), nontrivial=nt, classes=['extraction'] + sorted('extraction:' + f for f in feats),
                        sample={'src': src, 'extr': adjust(doc)[1], 'pack': doc[2]})
-    hyp_run(ctx, doc_s, one, ctx.n(30000, 600000))
+    hyp_run(ctx, doc_s, one, ctx.n(30000, 200000))
     try:
         from props import c18_include
     except ImportError:
